@@ -30,7 +30,10 @@ RULE = ("grids: every (algorithm, N) with algorithm in {ico, cube3D, randomS} an
         "(quick) / every N in 4..162 plus {200,300,500,642} (thorough); each also as a randomly rotated copy fed to "
         "RotobjVoronoi (degenerate vertices then differ in the last bits and exercise the isclose re-indexing); "
         "additionally randomS N in 200..300 (quick: 240 and three seed-chosen; thorough: every N 163..300), the grids with "
-        "the shortest Voronoi edges; "
+        "the shortest Voronoi edges; grids targeted by a pre-scan (Delaunay edges from scipy ConvexHull of the "
+        "implementation's points, N = 5..500 randomS / 300 or 500 ico, cube3D): those whose true neighbours have the largest "
+        "neighbour rank by distance (quick top 5 pairs + 2 seed-chosen N in 100..500, thorough top 40 + 30) and the most "
+        "elongated cells; "
         "synthetic vertices/regions (exact duplicates, near-duplicates at separations log-uniform over 1e-12..1e-3 in one "
         "coordinate / all coordinates / the norm, vanishing and tiny coordinates, antipodes, repeated "
         "region entries, out-of-range entries, more regions than centres, antipodal shared vertices) for the list logic. "
@@ -141,6 +144,93 @@ def _synthetic(rng):
     return {"kind": "synthetic", "centers": centers, "vertices": verts, "regions": regions}
 
 
+# ------------------------------------------------------------------------------------------------
+# targeted generator: pre-scan for the grids where completeness of the neighbour search is hardest
+# ------------------------------------------------------------------------------------------------
+def rank_scan(alg, nmax):
+    """Cheap pre-scan, independent of molgri's Voronoi code.  The points come from the implementation (one grid with
+    nmax points; the grids of one algorithm are nested, which is re-checked for every selected N), the triangulation
+    does not: scipy ConvexHull of the first N points = Delaunay triangulation on the sphere.  For every Delaunay edge
+    (i, j): the neighbour rank of j in i's list of centres sorted by distance (1 = nearest) in both directions, and
+    edge length / median edge length.  Per N the edge with the largest min-rank, the largest max-rank, the largest ratio."""
+    from scipy.spatial import ConvexHull
+    from molgri.space.rotobj import SphereGrid3DFactory
+    with core.quiet():
+        P = np.array(SphereGrid3DFactory.create(alg, nmax).get_grid_as_array(), dtype=float)
+    G = P @ P.T
+    rows = []
+    for N in range(5, nmax + 1):
+        try:
+            simp = ConvexHull(P[:N]).simplices
+        except Exception:       # flat point sets (e.g. four corners of one cube face)
+            continue
+        e = np.unique(np.sort(np.vstack([simp[:, [0, 1]], simp[:, [1, 2]], simp[:, [0, 2]]]), axis=1), axis=0)
+        d = G[e[:, 0], e[:, 1]]
+        rij = (G[e[:, 0], :N] > d[:, None]).sum(axis=1)          # includes i itself, hence 1-based rank of j
+        rji = (G[e[:, 1], :N] > d[:, None]).sum(axis=1)
+        rmin, rmax = np.minimum(rij, rji), np.maximum(rij, rji)
+        L = np.arccos(np.clip(d, -1, 1))
+        ratio = L / np.median(L)
+        a, b, c = int(rmin.argmax()), int(rmax.argmax()), int(ratio.argmax())
+        rows.append({"alg": alg, "N": N, "rank_both": int(rmin[a]), "pair": [int(e[a, 0]), int(e[a, 1])],
+                     "rank_one": int(rmax[b]), "pair_one": [int(e[b, 0]), int(e[b, 1])],
+                     "elongation": round(float(ratio[c]), 3), "pair_elong": [int(e[c, 0]), int(e[c, 1])]})
+    return P, rows
+
+
+def _windows(rows, key, pairkey):
+    """group the scan by the extremal pair: one window per (algorithm, pair) with the Ns where its value is maximal"""
+    w = {}
+    for r in rows:
+        k = (r["alg"], tuple(r[pairkey]))
+        cur = w.get(k)
+        if cur is None or r[key] > cur["value"]:
+            w[k] = {"alg": r["alg"], "pair": list(r[pairkey]), "value": r[key], "Ns": [r["N"]], "criterion": key}
+        elif r[key] == cur["value"]:
+            cur["Ns"].append(r["N"])
+    return sorted(w.values(), key=lambda x: (-x["value"], x["alg"], x["Ns"][0]))
+
+
+def targeted(ctx):
+    """grids selected by the pre-scan: largest neighbour rank of a true (Delaunay) neighbour, most elongated cells"""
+    rng = ctx.rng
+    bounds = {"randomS": 500, "ico": 300 if ctx.quick else 500, "cube3D": 300 if ctx.quick else 500}
+    rows, prefix = [], {}
+    for alg in ALGS:
+        P, r = rank_scan(alg, bounds[alg])
+        prefix[alg] = P
+        rows.extend(r)
+    byN = {(r["alg"], r["N"]): r for r in rows}
+    n_rank, n_one, n_el, n_rand = (5, 1, 1, 2) if ctx.quick else (40, 8, 8, 30)
+    chosen, seen_pairs = [], set()
+    for key, pairkey, n in (("rank_both", "pair", n_rank), ("rank_one", "pair_one", n_one), ("elongation", "pair_elong", n_el)):
+        k = 0
+        for w in _windows(rows, key, pairkey):
+            N = rng.choice(w["Ns"])
+            if (w["alg"], tuple(w["pair"])) in seen_pairs or (w["alg"], N) in [(c[0], c[1]) for c in chosen]:
+                continue
+            seen_pairs.add((w["alg"], tuple(w["pair"])))
+            chosen.append((w["alg"], N, key))
+            k += 1
+            if k >= n:
+                break
+    for _ in range(n_rand):
+        chosen.append(("randomS", rng.randint(100, 500), "seed-chosen"))
+    sel = []
+    for alg, N, why in chosen:
+        r = byN.get((alg, N), {})
+        sel.append({"alg": alg, "N": N, "why": why, "rank_both_directions": r.get("rank_both"), "pair": r.get("pair"),
+                    "rank_one_direction": r.get("rank_one"), "elongation": r.get("elongation")})
+    top = {alg: max((r["rank_both"] for r in rows if r["alg"] == alg), default=None) for alg in ALGS}
+    ctx.extra_cov["neighbour_rank_scan"] = {
+        "what": "Delaunay edges (scipy ConvexHull of the implementation's points) of every grid N = 5..bound: rank of the "
+                "partner among the centres sorted by distance, the smaller / larger of the two directions, and edge length "
+                "over median edge length; the grids with the extreme values get the full per-pair check",
+        "bounds": bounds, "max_rank_both_directions_per_algorithm": top, "selected": sel}
+    for alg, N, why in chosen:
+        yield {"kind": "grid", "alg": alg, "N": N, "_prefix_of": bounds[alg]}, prefix[alg][:N]
+
+
 def cases(ctx):
     rng = ctx.rng
     if ctx.quick:
@@ -162,6 +252,22 @@ def cases(ctx):
     for N in dense:
         if N not in Ns + big:
             yield {"kind": "grid", "alg": "randomS", "N": N}
+    done = {("randomS", N) for N in dense} | {(alg, N) for alg in ALGS for N in Ns + big}
+    nested_ok = 0
+    for case, pref in targeted(ctx):
+        key = (case["alg"], case["N"])
+        # the scan took the first N points of a larger grid: confirm that this is the grid the factory gives for N
+        from molgri.space.rotobj import SphereGrid3DFactory
+        with core.quiet():
+            Pn = np.array(SphereGrid3DFactory.create(case["alg"], case["N"]).get_grid_as_array(), dtype=float)
+        if Pn.shape == pref.shape and np.array_equal(Pn, pref):
+            nested_ok += 1
+        else:
+            ctx.branch("rank_scan_grid_is_not_a_prefix_of_the_larger_grid")
+        if key not in done:
+            done.add(key)
+            yield {"kind": "grid", "alg": case["alg"], "N": case["N"]}
+    ctx.branch("rank_scan_selected_grids_confirmed_nested", nested_ok)
     for alg in ALGS:
         extra = sorted(rng.sample(range(4, 80), 6)) if ctx.quick else []
         for N in sorted(set(rotNs[alg] + extra)):
